@@ -21,10 +21,12 @@ structure ArithSem (V : Type) extends OpSem V where
   add_zero : ∀ x, add x zero = x
   /-- scalar multiplication distributes over the fold of a sum -/
   smul_sum : ∀ a (l : List V), smul a (l.foldr add zero) = (l.map (smul a)).foldr add zero
-  /-- a lazy inverse (of an operand assumed invertible, cf. finding F13) undoes its operand, both ways -/
-  inv_left : ∀ u k o, (k = .inverse ∨ k = .qurotT ∨ k = .diagInv) →
+  /-- which operands are invertible (a diagonal operator with a zero entry is not: finding F13) -/
+  invertible : Op → Prop
+  /-- a lazy inverse of an INVERTIBLE operand undoes it, both ways -/
+  inv_left : ∀ u k o, invertible o → (k = .inverse ∨ k = .qurotT ∨ k = .diagInv) →
     ∀ x, mem (Op.inS o) x → den (.wrap u k o) (den o x) = x
-  inv_right : ∀ u k o, (k = .inverse ∨ k = .qurotT ∨ k = .diagInv) →
+  inv_right : ∀ u k o, invertible o → (k = .inverse ∨ k = .qurotT ∨ k = .diagInv) →
     ∀ x, mem (Op.inS (.wrap u k o)) x → den o (den (.wrap u k o) x) = x
 
 namespace ArithSem
@@ -34,13 +36,13 @@ abbrev L := A.toOpSem
 
 theorem mkIdentity_den (s : Struct) (x : V) (hx : A.mem s x) : A.den (mkIdentity s) x = x := by
   have h := A.identity_law (mkIdentity s) (by simp [mkIdentity, isIdentity, isLeafCls])
-  exact h.2 x (by simpa [mkIdentity, Op.inS] using hx)
+  exact h x (by simpa [mkIdentity, Op.inS] using hx)
 
 theorem mkHomothety_den (v : Rat) (s : Struct) (x : V) (hx : A.mem s x) :
     A.den (mkHomothety v s) x = A.smul v x := by
   obtain ⟨hH, hI, _, hV⟩ := OpSem.mkHomothety_law v s
   have h := A.homothety_law _ hH
-  rw [h.2 x (by rw [hI]; exact hx), hV]
+  rw [h x (by rw [hI]; exact hx), hV]
 
 theorem lazyInverseOf_cases (b a : Op) (h : lazyInverseOf b a = true) :
     ∃ u k, b = .wrap u k a ∧ (k = .inverse ∨ k = .qurotT ∨ k = .diagInv) := by
@@ -58,6 +60,11 @@ refuses non-square operands, rotations and diagonal operators are square) -/
 def LazySquare (o : Op) : Prop :=
   ∀ u k o', o = .wrap u k o' → (k = .inverse ∨ k = .qurotT ∨ k = .diagInv) → Op.inS o' = Op.outS o'
 
+/-- the operand of a lazy inverse is invertible (this is the hypothesis finding F13 violates: the
+pseudo-inverse of a singular diagonal operator is a lazy-inverse object too) -/
+def LazyInvertible (A : ArithSem V) (o : Op) : Prop :=
+  ∀ u k o', o = .wrap u k o' → (k = .inverse ∨ k = .qurotT ∨ k = .diagInv) → A.invertible o'
+
 theorem wrap_inS_sq (u : Nat) (k : WrapCls) (o : Op) (h : Op.inS o = Op.outS o) :
     Op.inS (.wrap u k o) = Op.inS o := by
   cases k <;> simp [Op.inS, h]
@@ -66,7 +73,8 @@ theorem wrap_outS (u : Nat) (k : WrapCls) (o : Op) : Op.outS (.wrap u k o) = Op.
   cases k <;> simp [Op.outS]
 
 /-- `AbstractLinearOperator.__matmul__` (when it does not return NotImplemented) denotes the product. -/
-theorem baseMatmul_den (a b r : Op) (hb : LazySquare b) (h : baseMatmul a b = .ok (some r)) :
+theorem baseMatmul_den (a b r : Op) (hb : LazySquare b) (hbi : A.LazyInvertible b)
+    (h : baseMatmul a b = .ok (some r)) :
     Op.inS a = Op.outS b ∧ Op.inS r = Op.inS b ∧ Op.outS r = Op.outS a ∧
     ∀ x, A.mem (Op.inS b) x → A.den r x = A.den a (A.den b x) := by
   unfold baseMatmul at h
@@ -86,7 +94,7 @@ theorem baseMatmul_den (a b r : Op) (hb : LazySquare b) (h : baseMatmul a b = .o
         refine ⟨hs', ?_, ?_, fun x hx => ?_⟩
         · rw [hin]; simp [mkIdentity, Op.inS]
         · rw [← hsq]; simp [mkIdentity, Op.outS]
-        · rw [A.inv_right u k a hk x hx]
+        · rw [A.inv_right u k a (hbi u k a rfl hk) hk x hx]
           exact A.mkIdentity_den _ x (by rw [← hin]; exact hx)
       · simp only [hl, if_false, Bool.false_eq_true, Except.ok.injEq, Option.some.injEq] at h
         subst h
@@ -119,7 +127,8 @@ theorem inSLast_singleton_append (xs : List Op) (b : Op) : inSLast (xs ++ [b]) =
 /-- **`a @ b` denotes the product of the maps**, with every construction-time shortcut (flattening of
 compositions on either side, identity absorption, merging of scalar factors, `A.I @ A` and `A @ A.I`
 collapsing to the identity), and the result has the structures of the product. -/
-theorem pyMatmul_den (a b r : Op) (ha : WFtop a) (hb : WFtop b) (h : pyMatmul a b = .ok r) :
+theorem pyMatmul_den (a b r : Op) (ha : WFtop a) (hb : WFtop b)
+    (hai : A.LazyInvertible a) (hbi : A.LazyInvertible b) (h : pyMatmul a b = .ok r) :
     Op.inS a = Op.outS b ∧ Op.inS r = Op.inS b ∧ Op.outS r = Op.outS a ∧
     ∀ x, A.mem (Op.inS b) x → A.den r x = A.den a (A.den b x) := by
   -- the generic path through `baseMatmul`, including the reflected `CompositionOperator.__rmatmul__`
@@ -132,7 +141,7 @@ theorem pyMatmul_den (a b r : Op) (ha : WFtop a) (hb : WFtop b) (h : pyMatmul a 
       cases res with
       | some r' =>
         simp only [hbm, Except.ok.injEq] at h; subst h
-        exact A.baseMatmul_den a b r' hb.1 hbm
+        exact A.baseMatmul_den a b r' hb.1 hbi hbm
       | none =>
         simp only [hbm] at h
         -- NotImplemented: b is a composition, structures already checked
@@ -204,7 +213,7 @@ theorem pyMatmul_den (a b r : Op) (ha : WFtop a) (hb : WFtop b) (h : pyMatmul a 
       refine ⟨by rw [hin, hsq], ?_, ?_, fun x hx => ?_⟩
       · rw [hin]; simp [mkIdentity, Op.inS]
       · rw [hin, wrap_outS]; simp [mkIdentity, Op.outS]
-      · rw [A.inv_left u k o hk x hx]
+      · rw [A.inv_left u k o (hai u k o rfl hk) hk x hx]
         exact A.mkIdentity_den _ x (by rw [hin]; exact hx)
     · exact generic (by simp [matmulOf, hl])
   | leaf u c p =>
@@ -217,10 +226,11 @@ theorem pyMatmul_den (a b r : Op) (ha : WFtop a) (hb : WFtop b) (h : pyMatmul a 
         simp only [hs, Bool.false_eq_true, if_false, Except.ok.injEq] at h
         subst h
         have hlaw := A.identity_law (Op.leaf u .identity p) (by simp [isIdentity, isLeafCls])
+        have hsq := OpSem.identity_square (Op.leaf u .identity p) (by simp [isIdentity, isLeafCls])
         refine ⟨hs', rfl, ?_, fun x hx => ?_⟩
-        · rw [← hlaw.1]; exact hs'.symm
+        · rw [← hsq]; exact hs'.symm
         · have hm := A.honest b x hx
-          rw [hlaw.2 _ (by rw [hs']; exact hm)]
+          rw [hlaw _ (by rw [hs']; exact hm)]
     · by_cases hh : c = .homothety
       · subst hh
         by_cases hbh : b.isHomothety = true
@@ -236,12 +246,14 @@ theorem pyMatmul_den (a b r : Op) (ha : WFtop a) (hb : WFtop b) (h : pyMatmul a 
             obtain ⟨_, hI, hO, _⟩ := OpSem.mkHomothety_law
               ((Op.leaf u .homothety p).homValue * b.homValue) p.inS
             have hpa : Op.inS (Op.leaf u .homothety p) = p.inS := rfl
+            have hsa := OpSem.homothety_square (Op.leaf u .homothety p) (by simp [isHomothety, isLeafCls])
+            have hsb := OpSem.homothety_square b hbh
             refine ⟨hs', ?_, ?_, fun x hx => ?_⟩
-            · rw [hI, ← hpa, hs', ← hlb.1]
-            · rw [hO, ← hpa, hla.1]
+            · rw [hI, ← hpa, hs', ← hsb]
+            · rw [hO, ← hpa, hsa]
             · have hm := A.honest b x hx
-              rw [hla.2 _ (by rw [hs']; exact hm), hlb.2 x hx, A.smul_smul]
-              exact A.mkHomothety_den _ _ x (by rw [← hpa, hs', ← hlb.1]; exact hx)
+              rw [hla _ (by rw [hs']; exact hm), hlb x hx, A.smul_smul]
+              exact A.mkHomothety_den _ _ x (by rw [← hpa, hs', ← hsb]; exact hx)
         · exact generic (by simp [matmulOf, hbh])
       · exact generic (by cases c <;> simp_all [matmulOf])
 
@@ -252,27 +264,30 @@ theorem WFtop_mkHomothety (v : Rat) (s : Struct) : WFtop (mkHomothety v s) := by
   · intro u td ops h; simp [mkHomothety] at h
 
 /-- **`k * a` denotes `k` times the map** (also `a * k`, which Python evaluates as `k * a`). -/
-theorem pyRmul_den (k : Rat) (a r : Op) (ha : WFtop a) (h : pyRmul k a = .ok r) :
+theorem lazyInvertible_mkHomothety (v : Rat) (s : Struct) : A.LazyInvertible (mkHomothety v s) := by
+  intro u k o' h; simp [mkHomothety] at h
+
+theorem pyRmul_den (k : Rat) (a r : Op) (ha : WFtop a) (hai : A.LazyInvertible a) (h : pyRmul k a = .ok r) :
     Op.inS r = Op.inS a ∧ Op.outS r = Op.outS a ∧
     ∀ x, A.mem (Op.inS a) x → A.den r x = A.smul k (A.den a x) := by
-  obtain ⟨_, h2, h3, h4⟩ := A.pyMatmul_den _ a r (WFtop_mkHomothety k _) ha h
+  obtain ⟨_, h2, h3, h4⟩ := A.pyMatmul_den _ a r (WFtop_mkHomothety k _) ha (A.lazyInvertible_mkHomothety k _) hai h
   refine ⟨h2, ?_, fun x hx => ?_⟩
   · rw [h3]; exact (OpSem.mkHomothety_law k _).2.2.1
   · rw [h4 x hx]
     exact A.mkHomothety_den k _ _ (A.honest a x hx)
 
 /-- **`a / k`** (`k ≠ 0`) denotes the map divided by `k`. -/
-theorem pyTruediv_den (k : Rat) (a r : Op) (ha : WFtop a) (h : pyTruediv a k = .ok r) :
+theorem pyTruediv_den (k : Rat) (a r : Op) (ha : WFtop a) (hai : A.LazyInvertible a) (h : pyTruediv a k = .ok r) :
     k ≠ 0 ∧ Op.inS r = Op.inS a ∧ Op.outS r = Op.outS a ∧
     ∀ x, A.mem (Op.inS a) x → A.den r x = A.smul (1 / k) (A.den a x) := by
   unfold pyTruediv at h
   split at h
   · simp at h
   · rename_i hk
-    exact ⟨hk, A.pyRmul_den (1 / k) a r ha h⟩
+    exact ⟨hk, A.pyRmul_den (1 / k) a r ha hai h⟩
 
 /-- **`-a`** for an operator that is not a sum denotes minus the map -/
-theorem pyNeg_den (a r : Op) (ha : WFtop a) (hns : a.isAdd = false) (h : pyNeg a = .ok r) :
+theorem pyNeg_den (a r : Op) (ha : WFtop a) (hai : A.LazyInvertible a) (hns : a.isAdd = false) (h : pyNeg a = .ok r) :
     Op.inS r = Op.inS a ∧ Op.outS r = Op.outS a ∧
     ∀ x, A.mem (Op.inS a) x → A.den r x = A.smul (-1) (A.den a x) := by
   have : pyNeg a = pyRmul (-1) a := by
@@ -280,7 +295,7 @@ theorem pyNeg_den (a r : Op) (ha : WFtop a) (hns : a.isAdd = false) (h : pyNeg a
     | cont u k td ops => cases k <;> simp_all [pyNeg, isAdd, isContCls]
     | _ => rfl
   rw [this] at h
-  exact A.pyRmul_den (-1) a r ha h
+  exact A.pyRmul_den (-1) a r ha hai h
 
 theorem foldr_add_append (l1 l2 : List V) :
     (l1 ++ l2).foldr A.add A.zero = A.add (l1.foldr A.add A.zero) (l2.foldr A.add A.zero) := by
